@@ -15,6 +15,8 @@ import OdcGeo.Model.C04
 import OdcGeo.Lemmas.C04
 import Mathlib.Tactic.Linarith
 import Mathlib.Tactic.Ring
+import Mathlib.Data.List.Nodup
+import OdcGeo.Lemmas.Affine
 namespace OdcGeo.C04
 open OdcGeo OdcGeo.C17 OdcGeo.NpArray
 
@@ -504,5 +506,316 @@ theorem vcrop_is_tiling_of_crop (ch : List Int) (hok : ChunksOK ch) (idx : PIdx)
     · simp only []; rw [hpre (k + 1) (by omega)]
       have : a + (k + 1) = a + k + 1 := by omega
       rw [this]; omega
+
+theorem vclip_rebases (ch : List Int) (hok : ChunksOK ch) (sel : List Int) (hne : sel ≠ [])
+    (hsel : ∀ s ∈ sel, 0 ≤ s ∧ s < (ch.length : Int)) :
+    ∃ ch' y1 y2, vclipTiles ch sel = .ok (ch', ⟨y1, y2 + 1⟩, sel.map (· - y1)) ∧
+      ChunksOK ch' ∧ (ch'.length : Int) = y2 + 1 - y1 ∧
+      ∀ s ∈ sel, ∃ r r', vgetItem ch (.idx s) = .ok r ∧ vgetItem ch' (.idx (s - y1)) = .ok r' ∧
+        r.start = r'.start + pre ch y1.toNat ∧ r.stop = r'.stop + pre ch y1.toNat := by
+  obtain ⟨y1, y2, hc, m1, m2, hb⟩ := clipSel_spec sel hne
+  have b1 := hsel y1 m1
+  have b2 := hsel y2 m2
+  have b12 := (hb y2 m2).1
+  have hr : normSlice (.slc (some y1) (some (y2 + 1))) (vcount ch) =
+      ⟨(y1.toNat : Int), ((y2 + 1).toNat : Int)⟩ := by
+    simp only [normSlice, wrapNeg]
+    rw [if_pos (by omega), if_pos (by omega)]
+    congr 1 <;> omega
+  obtain ⟨_, hok', hlen, _, htiles⟩ :=
+    vcrop_is_tiling_of_crop ch hok _ y1.toNat (y2 + 1).toNat hr ⟨by omega, by omega⟩
+  refine ⟨_, y1, y2, by simp only [vclipTiles, hc, bind, Except.bind, pure, Except.pure],
+    hok', by rw [hlen]; omega, ?_⟩
+  intro s hs
+  have hbs := hb s hs
+  obtain ⟨r, r', h1, h2, h3, h4⟩ := htiles (s - y1).toNat (by omega)
+  have e1 : ((y1.toNat + (s - y1).toNat : Nat) : Int) = s := by omega
+  have e2 : (((s - y1).toNat : Nat) : Int) = s - y1 := by omega
+  rw [e1] at h1
+  rw [e2] at h2
+  exact ⟨r, r', h1, h2, h3, h4⟩
+
+/-! ## the 2-D lift -/
+
+theorem axis_partition (t : Tiling) (hw : t.WF) (y : Int) (hy : 0 ≤ y ∧ y < t.base) :
+    ∃! i : Int, (0 ≤ i ∧ i < t.count) ∧ ∃ s, t.getItem (.idx i) = .ok s ∧ s.Has y := by
+  cases t with
+  | reg N n => exact tiles_partition N n hw y hy
+  | var ch =>
+    obtain ⟨i, ⟨hi, s, hs, hys⟩, huniq⟩ := vtiles_partition ch hw y hy
+    refine ⟨(i : Int), ⟨⟨by omega, by simp only [Tiling.count, vcount_eq]; omega⟩, s, hs, hys⟩, ?_⟩
+    rintro j ⟨⟨hj0, hjT⟩, s', hs', hys'⟩
+    simp only [Tiling.count, vcount_eq] at hjT
+    have := huniq j.toNat ⟨by omega, s', by
+      have : ((j.toNat : Nat) : Int) = j := by omega
+      rw [this]; exact hs', hys'⟩
+    omega
+
+theorem tiles2_partition (t : Tiling2) (hy : t.y.WF) (hx : t.x.WF) (py px : Int)
+    (hpy : 0 ≤ py ∧ py < t.y.base) (hpx : 0 ≤ px ∧ px < t.x.base) :
+    ∃! rc : Int × Int, ((0 ≤ rc.1 ∧ rc.1 < t.y.count) ∧ (0 ≤ rc.2 ∧ rc.2 < t.x.count)) ∧
+      ∃ sy sx, getItem2 t (.idx rc.1) (.idx rc.2) = .ok (sy, sx) ∧ sy.Has py ∧ sx.Has px := by
+  obtain ⟨r, ⟨hr, sy, hsy, hyy⟩, ur⟩ := axis_partition t.y hy py hpy
+  obtain ⟨c, ⟨hc, sx, hsx, hxx⟩, uc⟩ := axis_partition t.x hx px hpx
+  refine ⟨(r, c), ⟨⟨hr, hc⟩, sy, sx, ?_, hyy, hxx⟩, ?_⟩
+  · simp only [getItem2, zip2, hsy, hsx, bind, Except.bind, pure, Except.pure]
+  · rintro ⟨r', c'⟩ ⟨⟨hr', hc'⟩, sy', sx', h2, hyy', hxx'⟩
+    simp only [getItem2, zip2, bind, Except.bind, pure, Except.pure] at h2
+    cases hA : t.y.getItem (.idx r') with
+    | error e => rw [hA] at h2; cases h2
+    | ok a =>
+      cases hB : t.x.getItem (.idx c') with
+      | error e => rw [hA, hB] at h2; cases h2
+      | ok b =>
+        rw [hA, hB] at h2
+        cases h2
+        have e1 := ur r' ⟨hr', _, hA, hyy'⟩
+        have e2 := uc c' ⟨hc', _, hB, hxx'⟩
+        rw [e1, e2]
+
+theorem locate2_inverse (t : Tiling2) (hy : t.y.WF) (hx : t.x.WF) (py px : Int)
+    (hpy : 0 ≤ py ∧ py < t.y.base) (hpx : 0 ≤ px ∧ px < t.x.base) :
+    ∃ r c sy sx, locate2 t py px = .ok (r, c) ∧
+      getItem2 t (.idx r) (.idx c) = .ok (sy, sx) ∧ sy.Has py ∧ sx.Has px := by
+  have ax : ∀ (a : Tiling), a.WF → ∀ p, 0 ≤ p ∧ p < a.base →
+      ∃ i s, a.locate p = .ok i ∧ a.getItem (.idx i) = .ok s ∧ s.Has p := by
+    intro a ha p hp
+    cases a with
+    | reg N n =>
+      obtain ⟨i, s, h1, _, h2, h3⟩ := locate_inverse N n ha p hp
+      exact ⟨i, s, h1, h2, h3⟩
+    | var ch =>
+      obtain ⟨i, s, h1, _, h2, h3⟩ := vlocate_inverse ch ha p hp
+      exact ⟨i, s, h1, h2, h3⟩
+  obtain ⟨r, sy, l1, g1, y1⟩ := ax t.y hy py hpy
+  obtain ⟨c, sx, l2, g2, x1⟩ := ax t.x hx px hpx
+  refine ⟨r, c, sy, sx, ?_, ?_, y1, x1⟩
+  · simp only [locate2, zip2, l1, l2, bind, Except.bind, pure, Except.pure]
+  · simp only [getItem2, zip2, g1, g2, bind, Except.bind, pure, Except.pure]
+
+/-! ## `GeoboxTiles` -/
+
+theorem Tiling.getItem_nonneg (t : Tiling) (hw : t.WF) (idx : PIdx) (s : NSlice)
+    (h : t.getItem idx = .ok s) : 0 ≤ s.start ∧ 0 ≤ s.stop := by
+  cases t with
+  | reg N n => exact C04.getItem_nonneg N n hw idx s h
+  | var ch => exact vgetItem_nonneg ch hw idx s h
+
+theorem gbt_tile_is_crop (g : GeoboxTiles) (hy : g.tiles.y.WF) (hx : g.tiles.x.WF)
+    (iy ix : PIdx) (tile : GBox) (h : g.getItem iy ix = .ok tile) :
+    ∃ ry rx, getItem2 g.tiles iy ix = .ok (ry, rx) ∧
+      tile.ny = ry.stop - ry.start ∧ tile.nx = rx.stop - rx.start ∧
+      ∀ p : Rat × Rat, tile.A.apply p = g.base.A.apply (p.1 + rx.start, p.2 + ry.start) := by
+  simp only [GeoboxTiles.getItem, getItem2, zip2, bind, Except.bind, pure, Except.pure] at h ⊢
+  cases hA : g.tiles.y.getItem iy with
+  | error e => rw [hA] at h; cases h
+  | ok ry =>
+    cases hB : g.tiles.x.getItem ix with
+    | error e => rw [hA, hB] at h; cases h
+    | ok rx =>
+      rw [hA, hB] at h
+      cases h
+      obtain ⟨a1, a2⟩ := Tiling.getItem_nonneg _ hy iy ry hA
+      obtain ⟨b1, b2⟩ := Tiling.getItem_nonneg _ hx ix rx hB
+      refine ⟨ry, rx, rfl, ?_, ?_, ?_⟩
+      · simp only [GBox.crop, NSlice.toPIdx, normSlice, wrapNeg]
+        rw [if_pos (by omega), if_pos (by omega)]
+      · simp only [GBox.crop, NSlice.toPIdx, normSlice, wrapNeg]
+        rw [if_pos (by omega), if_pos (by omega)]
+      · intro p
+        simp only [GBox.crop, NSlice.toPIdx, normSlice, wrapNeg]
+        rw [if_pos (by omega), if_pos (by omega)]
+        rw [Aff.apply_mul]
+        congr 1
+        simp [Aff.apply, Aff.translation]
+
+/-! ## `BlockAssembler` -/
+
+theorem vgetItem_tileReg (ch : List Int) (hok : ChunksOK ch) (i : Int)
+    (hi : 0 ≤ i ∧ i < (ch.length : Int)) : vgetItem ch (.idx i) = .ok (tileReg ch i) := by
+  have := vgetItem_idx ch hok i.toNat (by omega)
+  have e : ((i.toNat : Nat) : Int) = i := by omega
+  rw [e] at this
+  exact this
+
+theorem tileReg_ok (ch : List Int) (hok : ChunksOK ch) (i : Int) :
+    0 ≤ (tileReg ch i).start ∧ (tileReg ch i).start ≤ (tileReg ch i).stop :=
+  ⟨pre_nonneg ch hok.1 _, pre_mono_step ch hok.1 _⟩
+
+section paste
+variable {Val : Type}
+
+theorem pasteBlock_spec (a : Assembler Val) (hy : ChunksOK a.chy) (hx : ChunksOK a.chx)
+    (wl : List NSlice) (wy wx : NSlice) (wt : List NSlice)
+    (hwy : 0 ≤ wy.start ∧ wy.start ≤ wy.stop) (hwx : 0 ≤ wx.start ∧ wx.start ≤ wx.stop)
+    (hwl : WinOK wl a.lead) (hwt : WinOK wt a.trail) (xx : Arr Val) (k : Int × Int)
+    (hk : KeyOK a k) :
+    ∃ xx', pasteBlock a wl wy wx wt xx k = .ok xx' ∧
+      ∀ l y x t, InBox l (lens wl) → (0 ≤ y ∧ y < wy.stop - wy.start) →
+        (0 ≤ x ∧ x < wx.stop - wx.start) → InBox t (lens wt) →
+        xx' l y x t =
+          if ((tileReg a.chy k.1).start ≤ wy.start + y ∧ wy.start + y < (tileReg a.chy k.1).stop) ∧
+             ((tileReg a.chx k.2).start ≤ wx.start + x ∧ wx.start + x < (tileReg a.chx k.2).stop)
+          then a.blk k (shift wl l) (wy.start + y - (tileReg a.chy k.1).start)
+                 (wx.start + x - (tileReg a.chx k.2).start) (shift wt t)
+          else xx l y x t := by
+  obtain ⟨sy, dy, aby, my, iy, ay, spy⟩ := axis_paste (tileReg a.chy k.1) wy (tileReg_ok _ hy _) hwy
+  obtain ⟨sx, dx, abx, mx, ix, ax, spx⟩ := axis_paste (tileReg a.chx k.2) wx (tileReg_ok _ hx _) hwx
+  obtain ⟨ml, eml, spl⟩ := extraMaps_spec a.lead wl hwl
+  obtain ⟨mt, emt, spt⟩ := extraMaps_spec a.trail wt hwt
+  simp only [pasteBlock, zip2, vgetItem_tileReg _ hy _ hk.1, vgetItem_tileReg _ hx _ hk.2, iy, ix,
+    ay, ax, eml, emt, bind, Except.bind, pure, Except.pure]
+  refine ⟨_, rfl, ?_⟩
+  intro l y x t hl hyy hxx ht
+  simp only [spl l hl, spt t ht, spy y hyy, spx x hxx]
+  by_cases c1 : (tileReg a.chy k.1).start ≤ wy.start + y ∧ wy.start + y < (tileReg a.chy k.1).stop
+  · by_cases c2 : (tileReg a.chx k.2).start ≤ wx.start + x ∧ wx.start + x < (tileReg a.chx k.2).stop
+    · simp only [c1, c2, and_self, if_true]
+    · simp only [c1, c2, and_false, and_true, if_true, if_false]
+  · simp only [c1, false_and, if_false]
+
+theorem tileReg_unique (ch : List Int) (hok : ChunksOK ch) (i j : Int) (hi : 0 ≤ i) (hj : 0 ≤ j)
+    (y : Int) (h1 : (tileReg ch i).Has y) (h2 : (tileReg ch j).Has y) : i = j := by
+  simp only [tileReg, NSlice.Has] at h1 h2
+  by_contra hne
+  rcases Int.lt_or_gt_of_ne hne with h | h
+  · have := pre_mono ch hok.1 (i.toNat + 1) j.toNat (by omega); omega
+  · have := pre_mono ch hok.1 (j.toNat + 1) i.toNat (by omega); omega
+
+theorem owns_unique (a : Assembler Val) (hy : ChunksOK a.chy) (hx : ChunksOK a.chx)
+    (k k' : Int × Int) (hk : KeyOK a k) (hk' : KeyOK a k') (Y X : Int)
+    (h : Owns a k Y X) (h' : Owns a k' Y X) : k = k' := by
+  have e1 := tileReg_unique a.chy hy k.1 k'.1 hk.1.1 hk'.1.1 Y h.1 h'.1
+  have e2 := tileReg_unique a.chx hx k.2 k'.2 hk.2.1 hk'.2.1 X h.2 h'.2
+  exact Prod.ext e1 e2
+
+theorem pasteAll_spec (a : Assembler Val) (hy : ChunksOK a.chy) (hx : ChunksOK a.chx)
+    (wl : List NSlice) (wy wx : NSlice) (wt : List NSlice)
+    (hwy : 0 ≤ wy.start ∧ wy.start ≤ wy.stop) (hwx : 0 ≤ wx.start ∧ wx.start ≤ wx.stop)
+    (hwl : WinOK wl a.lead) (hwt : WinOK wt a.trail) (ks : List (Int × Int)) :
+    ∀ (xx : Arr Val), (∀ k ∈ ks, KeyOK a k) →
+    ∃ out, pasteAll a wl wy wx wt xx ks = .ok out ∧
+      ∀ l y x t, InBox l (lens wl) → (0 ≤ y ∧ y < wy.stop - wy.start) →
+        (0 ≤ x ∧ x < wx.stop - wx.start) → InBox t (lens wt) →
+        (∀ k ∈ ks, Owns a k (wy.start + y) (wx.start + x) →
+          out l y x t = a.blk k (shift wl l) (wy.start + y - (tileReg a.chy k.1).start)
+            (wx.start + x - (tileReg a.chx k.2).start) (shift wt t)) ∧
+        ((∀ k ∈ ks, ¬ Owns a k (wy.start + y) (wx.start + x)) → out l y x t = xx l y x t) := by
+  induction ks with
+  | nil =>
+    intro xx _
+    refine ⟨xx, rfl, ?_⟩
+    intro l y x t _ _ _ _
+    exact ⟨fun k hk => by simp at hk, fun _ => rfl⟩
+  | cons k ks ih =>
+    intro xx hks
+    have hk : KeyOK a k := hks k (by simp)
+    obtain ⟨xx', hp, hspec⟩ := pasteBlock_spec a hy hx wl wy wx wt hwy hwx hwl hwt xx k hk
+    obtain ⟨out, ho, hout⟩ := ih xx' (fun k' hk' => hks k' (List.mem_cons_of_mem _ hk'))
+    refine ⟨out, by simp only [pasteAll, hp, ho, bind, Except.bind], ?_⟩
+    intro l y x t hl hyy hxx ht
+    obtain ⟨o1, o2⟩ := hout l y x t hl hyy hxx ht
+    have hs := hspec l y x t hl hyy hxx ht
+    constructor
+    · intro k' hk' hown
+      by_cases hin : ∃ k'' ∈ ks, Owns a k'' (wy.start + y) (wx.start + x)
+      · obtain ⟨k'', hk'', hown''⟩ := hin
+        have e : k' = k'' := owns_unique a hy hx k' k'' (hks k' hk')
+          (hks k'' (List.mem_cons_of_mem _ hk'')) _ _ hown hown''
+        rw [e]; exact o1 k'' hk'' hown''
+      · have hnone : ∀ k'' ∈ ks, ¬ Owns a k'' (wy.start + y) (wx.start + x) :=
+          fun k'' hk'' ho => hin ⟨k'', hk'', ho⟩
+        rcases List.mem_cons.1 hk' with rfl | hk'
+        · rw [o2 hnone, hs]; exact if_pos hown
+        · exact absurd hown (hnone k' hk')
+    · intro hnone
+      rw [o2 (fun k' hk' => hnone k' (List.mem_cons_of_mem _ hk')), hs]
+      exact if_neg (hnone k (by simp))
+
+theorem assemble_window (a : Assembler Val) (hy : ChunksOK a.chy) (hx : ChunksOK a.chx)
+    (hkeys : ∀ k ∈ a.present, KeyOK a k) (fill : Val)
+    (rl : List PIdx) (ry rx : PIdx) (rt : List PIdx)
+    (hrl : rl.length = a.lead.length) (hrt : rt.length = a.trail.length)
+    (hwl : WinOK ((rl.zip a.lead).map fun p => normSlice p.1 p.2) a.lead)
+    (hwt : WinOK ((rt.zip a.trail).map fun p => normSlice p.1 p.2) a.trail)
+    (hwy : 0 ≤ (normSlice ry (total a.chy)).start ∧
+      (normSlice ry (total a.chy)).start ≤ (normSlice ry (total a.chy)).stop)
+    (hwx : 0 ≤ (normSlice rx (total a.chx)).start ∧
+      (normSlice rx (total a.chx)).start ≤ (normSlice rx (total a.chx)).stop) :
+    let wl := (rl.zip a.lead).map fun p => normSlice p.1 p.2
+    let wt := (rt.zip a.trail).map fun p => normSlice p.1 p.2
+    let wy := normSlice ry (total a.chy)
+    let wx := normSlice rx (total a.chx)
+    ∃ arr, extract a fill rl ry rx rt =
+        .ok ((lens wl, wy.stop - wy.start, wx.stop - wx.start, lens wt), arr) ∧
+      ∀ l y x t, InBox l (lens wl) → (0 ≤ y ∧ y < wy.stop - wy.start) →
+        (0 ≤ x ∧ x < wx.stop - wx.start) → InBox t (lens wt) →
+        (∀ k ∈ a.present, Owns a k (wy.start + y) (wx.start + x) →
+          arr l y x t = a.blk k (shift wl l) (wy.start + y - (tileReg a.chy k.1).start)
+            (wx.start + x - (tileReg a.chx k.2).start) (shift wt t)) ∧
+        ((∀ k ∈ a.present, ¬ Owns a k (wy.start + y) (wx.start + x)) → arr l y x t = fill) := by
+  intro wl wt wy wx
+  obtain ⟨out, ho, hout⟩ := pasteAll_spec a hy hx wl wy wx wt hwy hwx hwl hwt a.present
+    (fun _ _ _ _ => fill) hkeys
+  refine ⟨out, ?_, hout⟩
+  have n1 := lens_any_neg wl a.lead hwl
+  have n2 := lens_any_neg wt a.trail hwt
+  simp only [lens] at n1 n2
+  simp only [extract]
+  rw [if_neg (by omega), if_neg (by rw [n1, n2]; simp; omega)]
+  rw [ho]
+  rfl
+
+end paste
+
+/-! ## `planes_yx`: `np.ndindex` over the extra axes (the `Y, X` pair is spliced in by definition) -/
+
+theorem ndindex_mem (shape idx : List Nat) : idx ∈ ndindex shape ↔ InShape idx shape := by
+  induction shape generalizing idx with
+  | nil =>
+    cases idx with
+    | nil => simp [ndindex, InShape]
+    | cons i is => simp [ndindex, InShape]
+  | cons n ns ih =>
+    cases idx with
+    | nil => simp [ndindex, InShape]
+    | cons i is =>
+      simp only [ndindex, List.mem_flatMap, List.mem_range, List.mem_map, InShape]
+      constructor
+      · rintro ⟨j, hj, rest, hrest, heq⟩
+        have e := List.cons.inj heq
+        rw [← e.1, ← e.2]
+        exact ⟨hj, (ih rest).1 hrest⟩
+      · rintro ⟨hi, his⟩
+        exact ⟨i, hi, is, (ih is).2 his, rfl⟩
+
+theorem ndindex_nodup (shape : List Nat) : (ndindex shape).Nodup := by
+  induction shape with
+  | nil => simp [ndindex]
+  | cons n ns ih =>
+    simp only [ndindex]
+    rw [List.nodup_flatMap]
+    refine ⟨?_, ?_⟩
+    · intro i _
+      exact (List.nodup_map_iff_inj_on ih).2 (fun a _ b _ h => by simpa using h)
+    · apply List.Pairwise.imp _ (List.nodup_range (n := n))
+      intro i j hij
+      intro l h1 h2
+      obtain ⟨r1, _, e1⟩ := List.mem_map.1 h1
+      obtain ⟨r2, _, e2⟩ := List.mem_map.1 h2
+      rw [← e2] at e1
+      exact hij (by simpa using (List.cons.inj e1).1)
+
+/-! ## hypotheses are satisfiable / needed -/
+
+example : ChunksOK [2, 0, 3] := ⟨by decide, by decide⟩
+example : Tiling.WF (.reg 5 14) := by show (0:Int) < 14; decide
+example : getItem 5 14 (.idx 0) = .ok ⟨0, 5⟩ := by decide
+example : vgetItem [2, 0, 3] (.idx 1) = .ok ⟨2, 2⟩ := by decide
+example : vlocate [2, 0, 3] 2 = .ok 2 := by decide
+
+/-- the `int32` hypothesis of the variable-tile theorems is needed: with `Σ chunks = 2^31` the
+cumulative sum wraps and `.base` is negative (the real code returns the same). -/
+theorem vbase_wraps_cex : vbase [1073741824, 1073741824] = -2147483648 := by decide
 
 end OdcGeo.C04
